@@ -108,7 +108,7 @@ package http2
 //@   requires ws != nil && rrInv(ws)
 //@   ghostset q.inRing = false
 //@   ensures [C20:ring-shape-kept] rrInv(ws)
-//@   ensures [C20:closed-stream-forgotten] !mapHas(ws.streams, streamID)
+//@   ensures [C20:closed-stream-forgotten] !mapHas(ws.streams, streamID) || mapGet(ws.streams, streamID) == nil
 //@   ensures [C20:other-streams-untouched] forall id uint32 :: id != streamID ==> (mapHas(ws.streams, id) <==> old(mapHas(ws.streams, id))) && mapGet(ws.streams, id) == old(mapGet(ws.streams, id)) && (mapHas(ws.streams, id) && mapGet(ws.streams, id) != nil && mapGet(ws.streams, id) != old(mapGet(ws.streams, streamID)) ==> mapGet(ws.streams, id).s == old(mapGet(ws.streams, id).s))
 
 //@ func (*roundRobinWriteScheduler).Push :: ws, wr
